@@ -122,6 +122,7 @@ class GridDistortion:
                         (data['yp'] - data['yr'])**2)
         rp = np.sqrt(data['xp']**2 + data['yp']**2)
 
-        data['max_distortion'] = np.max(100 * delta / rp)
+        # the on-axis point of an odd grid has rp = 0 (0/0): ignore it
+        data['max_distortion'] = np.nanmax(100 * delta / rp)
 
         return data
